@@ -550,3 +550,26 @@ Section SearchCfg.
 End SearchCfg.
 Definition knn_cfg cfg pick (fuel k : nat) (bound : D) (q : P) (t : tree) : option (list entry) :=
   search_cfg cfg pick k bound q fuel [(0, t)] (repeat pad k).
+
+(* tolerant comparison for point sets whose coordinates are not small integers
+   (decimal scales, clouds far from the origin): coordinates are the exact
+   binary64 values scaled by a common power of two; the exact squared
+   distances realised by the returned indices must agree with the brute-force
+   list within a relative 1/tau *)
+Definition close (tau a b : Z) : bool := Z.abs (a - b) * tau <=? b.
+Definition Dclose (tau : Z) (a b : D) : bool :=
+  match a, b with Fin x, Fin y => close tau x y | Inf, Inf => true | _, _ => false end.
+Definition idx_dist (q : P) (targets : list P) (i : Z) : D :=
+  match nth_pt targets i with Some p => Fin (d2 q p) | None => Inf end.
+Definition knn_agree_tol (tau : Z) (k : nat) (bound : D) (q : P) (targets : list P) (idx : list Z) : bool :=
+  (length idx =? k)%nat && nodupZ (filter (fun i => 0 <=? i) idx) &&
+  forallb (fun i => (i =? -1) || match nth_pt targets i with Some _ => true | None => false end) idx &&
+  list_eqb (Dclose tau) (map (idx_dist q targets) idx) (knn_spec_dists k bound q targets).
+Definition sqrt_close (tau n d s : Z) : bool :=
+  (0 <=? n) && (0 <? d) && (Z.abs (n * n - s * d * d) * tau <=? s * d * d).
+Definition dist_close_tol (tau : Z) (f : fl) (x : D) : bool :=
+  match f, x with
+  | FQ n d, Fin s => sqrt_close tau n d s
+  | FInf, Inf => true
+  | _, _ => false
+  end.
